@@ -238,6 +238,22 @@ def _int(ex, args, kwargs, node):
     raise Unsupported(f"int() of {a.ty}")
 
 
+def _isinstance_lazy(ex, node, f):
+    """isinstance(x, list) for a value that is either the constant False or a list"""
+    if len(node.args) == 2 and isinstance(node.args[1], ast.Name) and node.args[1].id == "list":
+        v = ex.eval(node.args[0])
+        if isinstance(v, VFalseOr) and isinstance(v.val, VList):
+            return VBool(z3.Not(v.isfalse))
+        if isinstance(v, (VList, VEmptyList)):
+            return VBool(True)
+        if isinstance(v, VBool):
+            return VBool(False)
+    raise Unsupported("isinstance() of this shape")
+
+
+lazy["builtins.isinstance"] = _isinstance_lazy
+
+
 @fn("builtins.bool", tb="TB-py")
 def _bool(ex, args, kwargs, node):
     return VBool(ex.truth(args[0]))
